@@ -658,3 +658,39 @@ pub async fn c11_library_reports_refusals(certs: &Certs) -> std::result::Result<
     }
     Ok((n, findings))
 }
+
+/// C11 with topic names outside ASCII (letters the name grammar's `\w` admits, multi-byte in UTF-8, placed so that
+/// they straddle every small byte offset): each of the four registrations must end up served or refused with an
+/// error frame — never a stream that just ends.
+pub async fn c11_unicode_names(addr: SocketAddr, certs: &Certs) -> std::result::Result<(u64, Findings), String> {
+    let c = raw_connect(addr, certs).await.map_err(|e| e.to_string())?;
+    let mut findings: Findings = vec![];
+    let mut n = 0u64;
+    let mut names: Vec<String> = vec![];
+    for ch in ['é', '中', '𐐀'] {
+        for k in 0..8usize {
+            // the multi-byte letter after k ASCII letters, in the namespace and in the topic part
+            names.push(format!("/{}{}{}/topic", "abcdefgh".chars().take(k).collect::<String>(), ch, if k < 2 { "zz" } else { "" }));
+            names.push(format!("/name-space/{}{}{}", "seliumxy".chars().take(k).collect::<String>(), ch, if k < 2 { "zz" } else { "" }));
+        }
+        names.push(format!("/seliu{}/topic", ch));
+        names.push(format!("/{}/{}", std::iter::repeat(ch).take(64).collect::<String>(), std::iter::repeat(ch).take(64).collect::<String>()));
+    }
+    for (i, name) in names.iter().enumerate() {
+        let kind = (i % 4) as u8;
+        n += 1;
+        let mut s = WireStream::open(&c.conn).await.map_err(|e| e.to_string())?;
+        s.write(&enc_register(kind, name)).await?;
+        match s.next(Duration::from_secs(5)).await {
+            Next::Frame(WFrame::Ok) | Next::Frame(WFrame::Error { .. }) => {}
+            other => findings.push((
+                "no-verdict/non-ascii-name".to_string(),
+                format!("registration of kind {} on {:?} ({} bytes) was neither served nor refused with an error frame: {:?}", kind, name, name.len(), other),
+            )),
+        }
+        if findings.len() >= 3 {
+            break;
+        }
+    }
+    Ok((n, findings))
+}
